@@ -56,6 +56,7 @@ import (
 	sdk "github.com/cosmos/cosmos-sdk/types"
 	"github.com/ethereum/go-ethereum/accounts/abi"
 	"github.com/ethereum/go-ethereum/common"
+	"github.com/ethereum/go-ethereum/core/vm"
 	"github.com/ethereum/go-ethereum/crypto"
 	tronaddress "github.com/fbsobreira/gotron-sdk/pkg/address"
 
@@ -87,6 +88,8 @@ type objT struct {
 	sol     map[string]any // values the relayer submits, by canonical contract parameter name
 	removed bool
 	proto   any // the stored proto object (to store a twin on another eth-style chain)
+	indep   bool   // digest was recomputed independently of the code under test (go-ethereum ABI packer over the Solidity argument list)
+	eq      string // "eq": all uint64 fields fit an int64 (Go bytes = Solidity bytes), "ne" otherwise
 }
 
 func (o *objT) keyStr() string { return fmt.Sprintf("%s/%s/%d", o.kind, o.token, o.nonce) }
@@ -104,6 +107,7 @@ type chainT struct {
 	tokens  [][]byte
 	blockNo uint64
 	txID    uint64
+	freeBridgers []sdk.AccAddress // bridger accounts oracles of this chain held earlier
 }
 
 func (c *chainT) addrStr(b []byte) string { return types.ExternalAddrToStr(c.name, b) }
@@ -307,6 +311,109 @@ func loadSolSites() []solSiteT {
 	return sites
 }
 
+func loadSolPrefix() map[string][]byte {
+	res := map[string][]byte{}
+	bz, err := os.ReadFile(os.Getenv("VERIF_FACTS"))
+	if err != nil {
+		return res
+	}
+	var facts map[string]json.RawMessage
+	if json.Unmarshal(bz, &facts) != nil {
+		return res
+	}
+	var m map[string]string
+	_ = json.Unmarshal(facts["C12.solSignPrefix"], &m)
+	for f, hx := range m {
+		if b, err := hex.DecodeString(hx); err == nil && len(b) > 0 {
+			res[f] = b
+		}
+	}
+	return res
+}
+
+type solPackedT struct {
+	Kind string `json:"kind"`
+	Lit  []byte `json:"lit"`
+	Name string `json:"name"`
+	Ty   string `json:"ty"`
+}
+
+// solVerifyT: verifySig of one contract file as the translator read it (facts C12.solVerifySigs)
+type solVerifyT struct {
+	File   string        `json:"file"`
+	PackFn string        `json:"packFn"`
+	Packed []solPackedT  `json:"packed"`
+	Params [][2]string   `json:"params"`
+	EcArgs []string      `json:"ecArgs"`
+	RetLhs string        `json:"retLhs"`
+	RetOp  string        `json:"retOp"`
+}
+
+func loadSolVerify() []solVerifyT {
+	var res []solVerifyT
+	bz, err := os.ReadFile(os.Getenv("VERIF_FACTS"))
+	if err != nil {
+		return res
+	}
+	var facts map[string]json.RawMessage
+	if json.Unmarshal(bz, &facts) != nil {
+		return res
+	}
+	_ = json.Unmarshal(facts["C12.solVerifySigs"], &res)
+	return res
+}
+
+// message: the bytes verifySig hashes for _theHash = hash, following the encoding function of the source: abi.encodePacked
+// concatenates (string literal: its bytes; bytes32: 32 bytes); abi.encode is the head/tail ABI encoding of (string, bytes32)
+func (v solVerifyT) message(hash []byte) ([]byte, error) {
+	switch v.PackFn {
+	case "abi.encodePacked":
+		var out []byte
+		for _, p := range v.Packed {
+			if p.Kind == "lit" {
+				out = append(out, p.Lit...)
+			} else if p.Ty == "bytes32" && len(v.Params) > 1 && p.Name == v.Params[1][1] {
+				out = append(out, hash...)
+			} else {
+				return nil, fmt.Errorf("argument %s of abi.encodePacked is not the hash parameter", p.Name)
+			}
+		}
+		return out, nil
+	case "abi.encode":
+		var args abi.Arguments
+		var vals []any
+		for _, p := range v.Packed {
+			if p.Kind == "lit" {
+				t, _ := abi.NewType("string", "", nil)
+				args, vals = append(args, abi.Argument{Type: t}), append(vals, string(p.Lit))
+			} else if p.Ty == "bytes32" && len(v.Params) > 1 && p.Name == v.Params[1][1] {
+				t, _ := abi.NewType("bytes32", "", nil)
+				var w [32]byte
+				copy(w[:], hash)
+				args, vals = append(args, abi.Argument{Type: t}), append(vals, w)
+			} else {
+				return nil, fmt.Errorf("argument %s of abi.encode is not the hash parameter", p.Name)
+			}
+		}
+		return args.Pack(vals...)
+	}
+	return nil, fmt.Errorf("verifySig hashes through %q", v.PackFn)
+}
+
+// verify: verifySig(signer, hash, v, r, s) with go-ethereum's ecrecover precompile; the source must hand ecrecover the hash
+// variable and its own v, r, s parameters and compare the result with its first parameter
+func (v solVerifyT) verify(hash, sig []byte, signer common.Address) (bool, error) {
+	if len(v.Params) != 5 || len(v.EcArgs) != 4 || v.EcArgs[1] != v.Params[2][1] || v.EcArgs[2] != v.Params[3][1] || v.EcArgs[3] != v.Params[4][1] ||
+		v.RetLhs != v.Params[0][1] || v.RetOp != "==" {
+		return false, fmt.Errorf("verifySig of %s no longer has the shape `return _signer == ecrecover(digest, _v, _r, _s)`", v.File)
+	}
+	msg, err := v.message(hash)
+	if err != nil {
+		return false, err
+	}
+	return contractVerifyMsg(crypto.Keccak256(msg), sig, signer), nil
+}
+
 func canonName(s string) string {
 	s = strings.TrimPrefix(s, "input.")
 	s = strings.TrimLeft(s, "_")
@@ -355,6 +462,120 @@ func solDigest(site solSiteT, vals map[string]any) ([]byte, error) {
 
 func u256(x uint64) *big.Int { return new(big.Int).SetUint64(x) }
 
+// values the relayer submits to the contract for an object, by canonical contract parameter name (relayer convention);
+// second result: do all uint64 fields fit an int64
+func solOfOracleSet(c *chainT, os *types.OracleSet) (map[string]any, bool) {
+	solAddrs, solPowers := []common.Address{}, []*big.Int{}
+	safe := os.Nonce < 1<<63
+	for _, m := range os.Members {
+		solAddrs, solPowers = append(solAddrs, common.BytesToAddress(b20(c, m.ExternalAddress))), append(solPowers, u256(m.Power))
+		safe = safe && m.Power < 1<<63
+	}
+	return map[string]any{"oraclesetnonce": u256(os.Nonce), "oracles": solAddrs, "powers": solPowers}, safe
+}
+
+func solOfBatch(c *chainT, b *types.OutgoingTxBatch) (map[string]any, bool) {
+	solAm, solDst, solFee := []*big.Int{}, []common.Address{}, []*big.Int{}
+	for _, t := range b.Transactions {
+		solAm, solDst, solFee = append(solAm, t.Token.Amount.BigInt()), append(solDst, common.BytesToAddress(b20(c, t.DestAddress))), append(solFee, t.Fee.Amount.BigInt())
+	}
+	return map[string]any{"amounts": solAm, "destinations": solDst, "fees": solFee, "batchnonce": u256(b.BatchNonce), "noncearray[1]": u256(b.BatchNonce),
+		"tokencontract": common.BytesToAddress(b20(c, b.TokenContract)), "batchtimeout": u256(b.BatchTimeout), "feereceive": common.BytesToAddress(b20(c, b.FeeReceive))}, b.BatchNonce < 1<<63 && b.BatchTimeout < 1<<63
+}
+
+func solOfBridgeCall(c *chainT, bc *types.OutgoingBridgeCall) (map[string]any, bool) {
+	solTok, solAmt := []common.Address{}, []*big.Int{}
+	for _, t := range bc.Tokens {
+		solTok, solAmt = append(solTok, common.BytesToAddress(b20(c, t.Contract))), append(solAmt, t.Amount.BigInt())
+	}
+	data, _ := hex.DecodeString(bc.Data)
+	memo, _ := hex.DecodeString(bc.Memo)
+	return map[string]any{"sender": common.BytesToAddress(b20(c, bc.Sender)), "refund": common.BytesToAddress(b20(c, bc.Refund)), "tokens": solTok, "amounts": solAmt,
+		"to": common.BytesToAddress(b20(c, bc.To)), "data": data, "memo": memo, "nonce": u256(bc.Nonce), "timeout": u256(bc.Timeout), "eventnonce": u256(bc.EventNonce)}, bc.Nonce < 1<<63 && bc.Timeout < 1<<63 && bc.EventNonce < 1<<63
+}
+
+// contractDigest: the digest FxBridgeLogic.sol recomputes for these values under the chain's gravity id — go-ethereum's ABI
+// packer over the abi.encode argument list read from the Solidity source; nil when the facts are not loaded
+func (h *hCtx) contractDigest(c *chainT, kind string, sol map[string]any) []byte {
+	var gidW [32]byte
+	copy(gidW[:], c.gid)
+	sol["fxbridgeid"], sol["state_fxbridgeid"] = gidW, gidW
+	for _, site := range h.sites {
+		if site.Func == solFuncOfKind[kind] && site.File == "FxBridgeLogic.sol" {
+			if d, err := solDigest(site, sol); err == nil {
+				return d
+			}
+		}
+	}
+	return nil
+}
+
+// contractVerifySig evaluates FxBridgeLogic.verifySig with go-ethereum's ecrecover precompile: input = digest32 ++ v(32) ++
+// r ++ s, v must be 27 or 28 (anything else makes the precompile return nothing = address(0)).
+func contractVerifySig(prefix, hash, sig []byte, signer common.Address) bool {
+	return contractVerifyMsg(crypto.Keccak256(append(append([]byte{}, prefix...), hash...)), sig, signer)
+}
+
+func contractVerifyMsg(msg, sig []byte, signer common.Address) bool {
+	if len(sig) < 65 {
+		return false
+	}
+	v := sig[64]
+	if v < 27 {
+		v += 27 // the relayer submits v in the contract's convention
+	}
+	in := make([]byte, 128)
+	copy(in[0:32], msg)
+	in[63] = v
+	copy(in[64:96], sig[0:32])
+	copy(in[96:128], sig[32:64])
+	pc, ok := vm.PrecompiledContractsHomestead[common.BytesToAddress([]byte{1})]
+	if !ok {
+		return false
+	}
+	out, err := pc.Run(nil, &vm.Contract{Input: in}, true)
+	if err != nil || len(out) != 32 {
+		return false
+	}
+	return len(sig) == 65 && common.BytesToAddress(out[12:]) == signer && signer != (common.Address{})
+}
+
+// emitVerifySig: op `verifysig <file> <digest> <sig65> <signer> <msgHash> <rec|->`, observation = what verifySig returns when
+// ecrecover is go-ethereum's precompile; (v, r, s) as the relayer splits them (v = 27 + normalised recovery byte).
+func (h *hCtx) emitVerifySig(digest, sig []byte, signerText string) {
+	const file = "FxBridgeLogic.sol"
+	pfx, ok := h.solPrefix[file]
+	if !ok || len(digest) != 32 {
+		return
+	}
+	msg := crypto.Keccak256(append(append([]byte{}, pfx...), digest...))
+	v := int(sig[64])
+	if v == 27 || v == 28 {
+		v -= 27
+	}
+	v += 27
+	rec := "-"
+	var recAddr common.Address
+	if v <= 255 {
+		in := make([]byte, 128)
+		copy(in[0:32], msg)
+		in[63] = byte(v)
+		copy(in[64:96], sig[0:32])
+		copy(in[96:128], sig[32:64])
+		if pc, ok := vm.PrecompiledContractsHomestead[common.BytesToAddress([]byte{1})]; ok {
+			if out, err := pc.Run(nil, &vm.Contract{Input: in}, true); err == nil && len(out) == 32 {
+				recAddr = common.BytesToAddress(out[12:])
+				rec = hex.EncodeToString(out[12:])
+			}
+		}
+	}
+	signer := common.HexToAddress(signerText)
+	res := recAddr == signer
+	h.out.Emit(fmt.Sprintf("verifysig %s %s %s %s %s %s", file, hex.EncodeToString(digest), hex.EncodeToString(sig), hex.EncodeToString(signer.Bytes()), hex.EncodeToString(msg), rec),
+		fmt.Sprintf("%t", res))
+	h.out.Count(fmt.Sprintf("verifysig:%t", res))
+}
+
 // ---- objects -----------------------------------------------------------------------------------------------------
 
 type hCtx struct {
@@ -365,6 +586,8 @@ type hCtx struct {
 	ctx   sdk.Context
 	big_  int
 	sites []solSiteT
+	solPrefix map[string][]byte // per Solidity file: first argument of abi.encodePacked(...) in verifySig
+	solVerify []solVerifyT
 }
 
 func allSafe(xs ...uint64) string {
@@ -405,11 +628,9 @@ func (h *hCtx) genOracleSet(c *chainT, nonce uint64, safe bool) *types.OracleSet
 func (h *hCtx) putOracleSet(c *chainT, os *types.OracleSet) *objT {
 	var parts []string
 	pw := []uint64{os.Nonce}
-	solAddrs, solPowers := []common.Address{}, []*big.Int{}
 	for _, m := range os.Members {
 		a := b20(c, m.ExternalAddress)
 		pw = append(pw, m.Power)
-		solAddrs, solPowers = append(solAddrs, common.BytesToAddress(a)), append(solPowers, u256(m.Power))
 		parts = append(parts, fmt.Sprintf("%s:%d", hex.EncodeToString(a), m.Power))
 	}
 	cp := func(gid string) ([]byte, error) {
@@ -419,7 +640,7 @@ func (h *hCtx) putOracleSet(c *chainT, os *types.OracleSet) *objT {
 		return os.GetCheckpoint(gid)
 	}
 	c.k.StoreOracleSet(h.ctx, os)
-	sol := map[string]any{"oraclesetnonce": u256(os.Nonce), "oracles": solAddrs, "powers": solPowers}
+	sol, _ := solOfOracleSet(c, os)
 	o := &objT{kind: "oset", nonce: os.Nonce, cp: cp, sol: sol, proto: os}
 	h.emitStore(c, o, fmt.Sprintf("oset %s %d %s", c.name, os.Nonce, joinOrDash(parts)), allSafe(pw...))
 	return o
@@ -461,14 +682,12 @@ func (h *hCtx) putBatch(c *chainT, b0 *types.OutgoingTxBatch) *objT {
 	b.Block = c.blockNo
 	b.Transactions = nil
 	var parts []string
-	solAm, solDst, solFee := []*big.Int{}, []common.Address{}, []*big.Int{}
 	for _, t0 := range b0.Transactions {
 		t := *t0
 		c.txID++
 		t.Id = c.txID
 		b.Transactions = append(b.Transactions, &t)
 		d := b20(c, t.DestAddress)
-		solAm, solDst, solFee = append(solAm, t.Token.Amount.BigInt()), append(solDst, common.BytesToAddress(d)), append(solFee, t.Fee.Amount.BigInt())
 		parts = append(parts, fmt.Sprintf("%s:%s:%s", t.Token.Amount.String(), hex.EncodeToString(d), t.Fee.Amount.String()))
 	}
 	cp := func(gid string) ([]byte, error) {
@@ -481,8 +700,7 @@ func (h *hCtx) putBatch(c *chainT, b0 *types.OutgoingTxBatch) *objT {
 		h.t.Fatalf("StoreBatch: %v", err)
 	}
 	token, fr := b20(c, b.TokenContract), b20(c, b.FeeReceive)
-	sol := map[string]any{"amounts": solAm, "destinations": solDst, "fees": solFee, "batchnonce": u256(b.BatchNonce), "noncearray[1]": u256(b.BatchNonce),
-		"tokencontract": common.BytesToAddress(token), "batchtimeout": u256(b.BatchTimeout), "feereceive": common.BytesToAddress(fr)}
+	sol, _ := solOfBatch(c, &b)
 	o := &objT{kind: "batch", nonce: b.BatchNonce, token: b.TokenContract, cp: cp, sol: sol, proto: b0}
 	h.emitStore(c, o, fmt.Sprintf("batch %s %s %s %d %d %s %s", c.name, b.TokenContract, hex.EncodeToString(token), b.BatchNonce, b.BatchTimeout,
 		hex.EncodeToString(fr), joinOrDash(parts)), allSafe(b.BatchNonce, b.BatchTimeout))
@@ -512,10 +730,8 @@ func (h *hCtx) genBridgeCall(c *chainT, nonce uint64, safe bool) *types.Outgoing
 
 func (h *hCtx) putBridgeCall(c *chainT, bc *types.OutgoingBridgeCall) *objT {
 	var parts []string
-	solTok, solAmt := []common.Address{}, []*big.Int{}
 	for _, t := range bc.Tokens {
 		ct := b20(c, t.Contract)
-		solTok, solAmt = append(solTok, common.BytesToAddress(ct)), append(solAmt, t.Amount.BigInt())
 		parts = append(parts, fmt.Sprintf("%s:%s", hex.EncodeToString(ct), t.Amount.String()))
 	}
 	cp := func(gid string) ([]byte, error) {
@@ -528,8 +744,7 @@ func (h *hCtx) putBridgeCall(c *chainT, bc *types.OutgoingBridgeCall) *objT {
 	sd, rf, to := b20(c, bc.Sender), b20(c, bc.Refund), b20(c, bc.To)
 	data, _ := hex.DecodeString(bc.Data)
 	memo, _ := hex.DecodeString(bc.Memo)
-	sol := map[string]any{"sender": common.BytesToAddress(sd), "refund": common.BytesToAddress(rf), "tokens": solTok, "amounts": solAmt,
-		"to": common.BytesToAddress(to), "data": data, "memo": memo, "nonce": u256(bc.Nonce), "timeout": u256(bc.Timeout), "eventnonce": u256(bc.EventNonce)}
+	sol, _ := solOfBridgeCall(c, bc)
 	o := &objT{kind: "bcall", nonce: bc.Nonce, cp: cp, sol: sol, proto: bc}
 	h.emitStore(c, o, fmt.Sprintf("bcall %s %d %s %s %s %s %s %d %d %s", c.name, bc.Nonce, hex.EncodeToString(sd), hex.EncodeToString(rf), hex.EncodeToString(to),
 		hx.Hex(data), hx.Hex(memo), bc.Timeout, bc.EventNonce, joinOrDash(parts)), allSafe(bc.Nonce, bc.Timeout, bc.EventNonce))
@@ -559,12 +774,20 @@ func (h *hCtx) emitStore(c *chainT, o *objT, op, eq string) {
 		h.out.Emit(op, "err:"+err.Error())
 		return
 	}
-	o.digest = d
+	o.digest, o.eq = d, eq
 	c.objs = append(c.objs, o)
 	c.ledger[o.keyStr()] = o
 	h.out.Emit(op, hex.EncodeToString(d)+" "+eq)
+	if eq == "eq" && o.sol != nil {
+		// from here on the digest the oracles of the harness SIGN is the one recomputed independently of the code under test
+		// (the contract's abi.encode argument list, go-ethereum's packer); a deviation of the real encoder is reported below
+		if cd := h.contractDigest(c, o.kind, o.sol); cd != nil {
+			o.digest, o.indep = cd, true
+			h.out.Count("digest:independent")
+		}
+	}
 	// monitor: what is read back from the real store under the object's key has this checkpoint
-	if rd := h.liveDigest(c, o.kind, o.token, o.nonce); !bytes.Equal(rd, d) {
+	if rd := h.liveDigest(c, o.kind, o.token, o.nonce); !bytes.Equal(rd, o.digest) {
 		h.out.Violate(fmt.Sprintf("a stored %s read back from the store under its own key has another checkpoint than the object that was stored", o.kind))
 	}
 	if eq == "eq" && o.sol != nil {
@@ -590,7 +813,9 @@ func (h *hCtx) emitStore(c *chainT, o *objT, op, eq string) {
 }
 
 // liveDigest reads the object back from the REAL store under exactly (kind, token, nonce) and recomputes its checkpoint
-// under the gravity id of the chain's parameters; nil when no such object is stored.
+// under the gravity id of the chain's parameters; nil when no such object is stored.  When every uint64 field fits an int64
+// the digest is recomputed INDEPENDENTLY of the code under test (the contract's abi.encode list, go-ethereum's packer, own
+// base58 / hex address decoding) on every chain style; above 2^63 (Go and Solidity differ by design) by the real encoder.
 func (h *hCtx) liveDigest(c *chainT, kind, token string, nonce uint64) []byte {
 	gid := c.gid
 	var d []byte
@@ -600,6 +825,11 @@ func (h *hCtx) liveDigest(c *chainT, kind, token string, nonce uint64) []byte {
 		os := c.k.GetOracleSet(h.ctx, nonce)
 		if os == nil {
 			return nil
+		}
+		if sol, safe := solOfOracleSet(c, os); safe {
+			if cd := h.contractDigest(c, kind, sol); cd != nil {
+				return cd
+			}
 		}
 		if c.tron {
 			d, err = trontypes.GetCheckpointOracleSet(os, gid)
@@ -611,6 +841,11 @@ func (h *hCtx) liveDigest(c *chainT, kind, token string, nonce uint64) []byte {
 		if b == nil {
 			return nil
 		}
+		if sol, safe := solOfBatch(c, b); safe {
+			if cd := h.contractDigest(c, kind, sol); cd != nil {
+				return cd
+			}
+		}
 		if c.tron {
 			d, err = trontypes.GetCheckpointConfirmBatch(b, gid)
 		} else {
@@ -620,6 +855,11 @@ func (h *hCtx) liveDigest(c *chainT, kind, token string, nonce uint64) []byte {
 		bc, found := c.k.GetOutgoingBridgeCallByNonce(h.ctx, nonce)
 		if !found {
 			return nil
+		}
+		if sol, safe := solOfBridgeCall(c, bc); safe {
+			if cd := h.contractDigest(c, kind, sol); cd != nil {
+				return cd
+			}
 		}
 		if c.tron {
 			d, err = trontypes.GetCheckpointBridgeCall(bc, gid)
@@ -794,6 +1034,30 @@ func (h *hCtx) verifyEntry(c *chainT, e entryT, class string) {
 	if got := c.recoverOwn(digest, sig); got != rec.ExternalAddress {
 		h.out.Violate(fmt.Sprintf("stored %s confirm does not verify under the oracle's registered external key over the checkpoint of the stored object it is filed under (after %s)", kind, class))
 	}
+	if !c.tron && len(h.solPrefix) > 0 {
+		// the contract's own check: verifySig(_signer, _theHash, v, r, s) = (_signer == ecrecover(keccak256(abi.encodePacked(
+		// <prefix read from the Solidity source>, _theHash)), v, r, s)), with go-ethereum's ECRECOVER PRECOMPILE (address 0x01)
+		// as ecrecover and (v, r, s) split off the stored signature as the relayer does (v = 27 / 28)
+		for file, pfx := range h.solPrefix {
+			h.out.Count("contract-verifySig:" + file)
+			if !contractVerifySig(pfx, digest, sig, common.HexToAddress(rec.ExternalAddress)) {
+				h.out.Violate(fmt.Sprintf("stored %s confirm does not pass %s:verifySig (ecrecover precompile over keccak256(abi.encodePacked(prefix, digest)) with v,r,s split off the stored signature) for the oracle's registered external address: the accepted confirmation is not usable on the bridge contract (after %s)", kind, file, class))
+			}
+		}
+	}
+	if !c.tron {
+		// … and verifySig of EVERY contract variant evaluated as its source spells it (encoding function, argument list,
+		// ecrecover arguments, comparison: facts C12.solVerifySigs)
+		for _, v := range h.solVerify {
+			h.out.Count("contract-verifySig-as-written:" + v.File)
+			ok, err := v.verify(digest, sig, common.HexToAddress(rec.ExternalAddress))
+			if err != nil {
+				h.out.Violate(fmt.Sprintf("stored %s confirm cannot be checked against %s:verifySig as written: %v (after %s)", kind, v.File, err, class))
+			} else if !ok {
+				h.out.Violate(fmt.Sprintf("stored %s confirm does not pass %s:verifySig evaluated as its source spells it (%s of the literal and the digest, ecrecover precompile, v,r,s split off the stored signature) for the oracle's registered external address: the accepted confirmation is not usable on that bridge contract (after %s)", kind, v.File, v.PackFn, class))
+			}
+		}
+	}
 	if e.ext != rec.ExternalAddress {
 		h.out.Violate(fmt.Sprintf("stored %s confirm names an external address that is not the oracle's (after %s)", kind, class))
 	}
@@ -888,6 +1152,16 @@ func (h *hCtx) sendConfirm(c *chainT, k keyT, bridger, ext, sigText string, sign
 	op := fmt.Sprintf("confirm %s %s %s %s %s %s %s", c.name, keyArgs(k), bridger, ext, sigField, hx.Hex(signedDigest), a)
 	h.out.Emit(op, fmt.Sprintf("%s %s n=%d", kind, h.showStored(c, after, k), len(after)))
 	h.out.Count("confirm:" + class + ":" + kind)
+	if !c.tron && len(sigBytes) == 65 && strings.HasPrefix(ext, "0x") && len(ext) == 42 {
+		// the contract's verifySig on this very signature (model: `solVerifySig` over the regenerated source structure with
+		// its own Keccak; implementation side: go-ethereum's ecrecover precompile), over the digest of the named live object
+		// when there is one, else over the digest the signature was made for
+		vd := signedDigest
+		if ld := h.liveDigest(c, k.kind, k.token, k.nonce); ld != nil && h.rng.Intn(2) == 0 {
+			vd = ld
+		}
+		h.emitVerifySig(vd, sigBytes, ext)
+	}
 	h.out.Nontrivial(k.kind + "|" + class + "|" + kind + "|" + map[bool]string{true: "tron", false: "eth"}[c.tron])
 	// whole-store monitors
 	bm, am := entriesByKey(before), entriesByKey(after)
@@ -911,6 +1185,31 @@ func (h *hCtx) sendConfirm(c *chainT, k keyT, bridger, ext, sigText string, sign
 	} else if len(added) != 0 {
 		h.out.Violate(fmt.Sprintf("rejected %s confirm (%s) changed the confirm store", k.kind, class))
 	}
+	// monitor (the other direction of "the checkpoint fxcore signs is the digest the contract recomputes"): a confirm that
+	// names a live object, is submitted by the bridger of the oracle its external address is registered to, carries a 65-byte
+	// signature that recovers (own recovery) to that external address over the digest the CONTRACT recomputes for that object
+	// (recomputed independently), with no confirmation of that oracle for the object stored yet, must be accepted — a handler
+	// that rejects it verifies signatures against another checkpoint than the one the oracles sign and the contract checks.
+	if o := c.ledger[k.str()]; o != nil && !o.removed && o.indep && sigBytes != nil && len(sigBytes) == 65 {
+		if oa, found := c.k.GetOracleAddrByExternalAddr(h.ctx, ext); found {
+			if rec, found := c.k.GetOracle(h.ctx, oa); found && rec.ExternalAddress == ext && rec.BridgerAddress == bridger {
+				dup := false
+				for _, b := range before {
+					if b.key == k && b.oracle.Equals(oa) {
+						dup = true
+					}
+				}
+				ld := h.liveDigest(c, k.kind, k.token, k.nonce)
+				if !dup && ld != nil && c.recoverOwn(ld, sigBytes) == ext {
+					h.out.Count("honest-confirm:" + k.kind + ":" + map[bool]string{true: "tron", false: "eth"}[c.tron] + ":" + kind)
+					if kind != "ok" {
+						h.out.Violate(fmt.Sprintf("a %s confirm (%s) carrying the oracle's signature over the digest the bridge contract recomputes for the stored object it names, submitted by that oracle's bridger, first for that oracle and object, was rejected (%s) on the %s chain: the handler verifies signatures against another checkpoint than the contract's",
+							k.kind, class, kind, map[bool]string{true: "tron", false: "eth-style"}[c.tron]))
+					}
+				}
+			}
+		}
+	}
 	for _, e := range added {
 		if e.key != k {
 			h.out.Violate(fmt.Sprintf("an accepted %s confirm (%s) was filed under another key (token contract / nonce) than the message names", k.kind, class))
@@ -926,6 +1225,33 @@ func (h *hCtx) sendConfirm(c *chainT, k keyT, bridger, ext, sigText string, sign
 		}
 		h.verifyEntry(c, e, class)
 	}
+}
+
+// otherEncoder applies the checkpoint encoder of the other chain style to the stored proto object.
+func otherEncoder(c *chainT, o *objT, gid string) (d []byte, err error) {
+	defer func() {
+		if r := recover(); r != nil {
+			d, err = nil, fmt.Errorf("panic: %v", r)
+		}
+	}()
+	switch p := o.proto.(type) {
+	case *types.OracleSet:
+		if c.tron {
+			return p.GetCheckpoint(gid)
+		}
+		return trontypes.GetCheckpointOracleSet(p, gid)
+	case *types.OutgoingTxBatch:
+		if c.tron {
+			return p.GetCheckpoint(gid)
+		}
+		return trontypes.GetCheckpointConfirmBatch(p, gid)
+	case *types.OutgoingBridgeCall:
+		if c.tron {
+			return p.GetCheckpoint(gid)
+		}
+		return trontypes.GetCheckpointBridgeCall(p, gid)
+	}
+	return nil, fmt.Errorf("no proto")
 }
 
 func malleate(sig []byte) []byte {
@@ -970,7 +1296,8 @@ var confirmClasses = []string{"valid", "valid", "valid", "valid", "valid", "v27"
 	"other-prefix", "other-key", "other-chain-checkpoint", "wrong-bridger", "unknown-ext", "missing-object", "nothex", "empty", "swapped-identity", "random65", "no-prefix",
 	// right in all but one coordinate
 	"wrong-token", "wrong-token", "wrong-token-spelling", "wrong-nonce", "wrong-nonce", "wrong-chain", "wrong-chain", "ext-of-other-oracle", "bridger-of-other-oracle",
-	"neighbour-sig", "neighbour-sig", "pruned-object", "pruned-object", "other-kind-same-nonce", "ext-spelling", "earlier-gid", "self-made-identity"}
+	"neighbour-sig", "neighbour-sig", "pruned-object", "pruned-object", "other-kind-same-nonce", "ext-spelling", "earlier-gid", "self-made-identity",
+	"other-encoder", "other-encoder"}
 
 func (h *hCtx) randomConfirm(c *chainT, others []*chainT) { h.confirmOfClass(c, others, "", "") }
 
@@ -1093,6 +1420,17 @@ func (h *hCtx) confirmOfClass(c *chainT, others []*chainT, forceClass, forceKind
 		}
 		d, err := o.cp(g)
 		if err != nil {
+			return
+		}
+		digest = d
+		sig = c.sign(digest, or.key)
+	case "other-encoder":
+		// the oracle's signature over what the encoder of the OTHER chain style yields for this very object and gravity id
+		// (tron chain: the eth-style GetCheckpoint, which reads base58 address text through HexToAddress; eth-style chain: the
+		// tron encoder, when it accepts hex address text at all)
+		d, err := otherEncoder(c, o, c.gid)
+		if err != nil || d == nil || bytes.Equal(d, o.digest) {
+			h.out.Count("other-encoder:n/a")
 			return
 		}
 		digest = d
@@ -1368,6 +1706,12 @@ func (h *hCtx) editBridger(c *chainT) {
 		return
 	}
 	nb := helpers.GenAccAddress()
+	if len(c.freeBridgers) > 0 && h.rng.Intn(2) == 0 {
+		// a bridger account another oracle of this chain held earlier (free again): confirmations stored under that oracle
+		// still carry it
+		nb = c.freeBridgers[h.rng.Intn(len(c.freeBridgers))]
+		h.out.Count("edit-bridger:reuse-freed")
+	}
 	msg := &types.MsgEditBridger{ChainName: c.name, OracleAddress: or.addr.String(), BridgerAddress: nb.String()}
 	cctx, write := h.ctx.CacheContext()
 	// MsgEditBridger.ValidateBasic parses bridger_address as a VALIDATOR address while the handler parses it as an
@@ -1386,8 +1730,143 @@ func (h *hCtx) editBridger(c *chainT) {
 		return
 	}
 	write()
+	for i, fb := range c.freeBridgers {
+		if fb.Equals(nb) {
+			c.freeBridgers = append(c.freeBridgers[:i], c.freeBridgers[i+1:]...)
+			break
+		}
+	}
+	if old, err := sdk.AccAddressFromBech32(rec.BridgerAddress); err == nil {
+		c.freeBridgers = append(c.freeBridgers, old)
+	}
 	or.bridger = nb
 	h.out.Emit(fmt.Sprintf("oracle %s %d %s %s", c.name, or.id, nb.String(), rec.ExternalAddress), "ok")
+}
+
+// genesisRoundTrip: ExportGenesis of the chain, the module store wiped, InitGenesis of what was exported — in a throw-away
+// context.  Monitor: the import must not file a confirmation under an oracle / object that had none (a confirmation the
+// oracle never submitted), nor change one; confirmations that do not survive are counted.
+func (h *hCtx) genesisRoundTrip(c *chainT) {
+	before := h.scanAll(c)
+	cctx, _ := h.ctx.CacheContext()
+	res := hx.Try(func() error {
+		state := crosschainkeeper.ExportGenesis(cctx, c.k)
+		st := cctx.KVStore(h.s.App.GetKey(c.name))
+		var keys [][]byte
+		it := st.Iterator(nil, nil)
+		for ; it.Valid(); it.Next() {
+			keys = append(keys, append([]byte{}, it.Key()...))
+		}
+		it.Close()
+		for _, k := range keys {
+			st.Delete(k)
+		}
+		crosschainkeeper.InitGenesis(cctx, c.k, state)
+		return nil
+	})
+	h.out.Count("genesis-round-trip:" + strings.SplitN(res, ":", 2)[0])
+	if res != "ok" {
+		h.out.Stats.Extra["genesis_round_trip_error"] = res
+		return
+	}
+	saved := h.ctx
+	h.ctx = cctx
+	after := h.scanAll(c)
+	h.ctx = saved
+	bm := entriesByKey(before)
+	kept := 0
+	for _, e := range after {
+		b, ok := bm[e.storeKey]
+		switch {
+		case !ok:
+			h.out.Violate(fmt.Sprintf("after a genesis export / import round trip a %s confirmation is stored for an oracle and object that had none: a confirmation that oracle never submitted (the import files confirmations by bridger address)", e.key.kind))
+		case !bytes.Equal(b.raw, e.raw):
+			h.out.Violate(fmt.Sprintf("a genesis export / import round trip changed a stored %s confirmation", e.key.kind))
+		default:
+			kept++
+		}
+	}
+	h.out.Stats.Extra["genesis_round_trip_confirms_kept_of"] = fmt.Sprintf("%d/%d", kept, len(before))
+	for _, b := range before {
+		found := false
+		for _, e := range after {
+			if e.storeKey == b.storeKey {
+				found = true
+			}
+		}
+		if !found {
+			h.out.Count("genesis-round-trip:lost:" + b.key.kind)
+		}
+	}
+}
+
+// genesisBridgerReuse: a deterministic history through the real handlers only — oracle A (bridger X) confirms an oracle set;
+// A goes offline, leaves the proposal oracles and unbonds (real MsgUnbondedOracle: record and indexes deleted, its
+// confirmations stay); a new oracle B bonds with the now free bridger account X (real MsgBondedOracle); the chain is exported
+// and imported.  Monitor as in genesisRoundTrip: no confirmation may appear under an oracle that never submitted one.
+func (h *hCtx) genesisBridgerReuse() {
+	s := h.s
+	k := s.App.EthKeeper
+	name := "eth"
+	cctx, _ := s.Ctx.CacheContext()
+	h.ctx = cctx
+	c := &chainT{name: name, k: k, ledger: map[string]*objT{}, accRec: map[string]types.Oracle{}, gid: k.GetGravityID(cctx)}
+	keyA, _ := crypto.GenerateKey()
+	a := &oracleT{id: 0, addr: helpers.GenAccAddress(), bridger: helpers.GenAccAddress(), key: keyA}
+	a.ext = c.addrStr(crypto.PubkeyToAddress(keyA.PublicKey).Bytes())
+	threshold := k.GetOracleDelegateThreshold(cctx)
+	bond := func(o *oracleT) string {
+		s.MintToken(o.addr, threshold)
+		msg := &types.MsgBondedOracle{OracleAddress: o.addr.String(), BridgerAddress: o.bridger.String(), ExternalAddress: o.ext,
+			ValidatorAddress: s.ValAddr[0].String(), DelegateAmount: threshold, ChainName: name}
+		return hx.Try(func() error {
+			if err := msg.ValidateBasic(); err != nil {
+				return err
+			}
+			_, err := s.App.MsgServiceRouter().Handler(msg)(cctx, msg)
+			return err
+		})
+	}
+	k.SetProposalOracle(cctx, &types.ProposalOracle{Oracles: []string{a.addr.String()}})
+	if r := bond(a); r != "ok" {
+		h.out.Stats.Extra["genesis_reuse"] = "bond A: " + r
+		return
+	}
+	os := &types.OracleSet{Nonce: 777001, Height: 3, Members: []types.BridgeValidator{{Power: 100, ExternalAddress: a.ext}}}
+	k.StoreOracleSet(cctx, os)
+	cp, err := os.GetCheckpoint(c.gid)
+	if err != nil {
+		return
+	}
+	conf := &types.MsgOracleSetConfirm{Nonce: os.Nonce, BridgerAddress: a.bridger.String(), ExternalAddress: a.ext, Signature: hex.EncodeToString(c.sign(cp, keyA)), ChainName: name}
+	if r := hx.Try(func() error { _, err := s.App.MsgServiceRouter().Handler(conf)(cctx, conf); return err }); r != "ok" {
+		h.out.Stats.Extra["genesis_reuse"] = "confirm A: " + r
+		return
+	}
+	// A is taken out of the oracle set by governance (UpdateChainOracles: offline + undelegated) …
+	k.SetProposalOracle(cctx, &types.ProposalOracle{Oracles: []string{}})
+	rec, _ := k.GetOracle(cctx, a.addr)
+	rec.Online = false
+	k.SetOracle(cctx, rec)
+	// … its delegation is released (the staking unbonding period is not simulated: the delegation record is what the
+	// handler looks at, an unbonding entry must not exist)
+	un := &types.MsgUnbondedOracle{OracleAddress: a.addr.String(), ChainName: name}
+	if r := hx.Try(func() error { _, err := s.App.MsgServiceRouter().Handler(un)(cctx, un); return err }); r != "ok" {
+		h.out.Stats.Extra["genesis_reuse"] = "unbond A: " + r
+		h.out.Count("genesis-reuse:unbond-failed")
+		return
+	}
+	keyB, _ := crypto.GenerateKey()
+	b := &oracleT{id: 1, addr: helpers.GenAccAddress(), bridger: a.bridger, key: keyB}
+	b.ext = c.addrStr(crypto.PubkeyToAddress(keyB.PublicKey).Bytes())
+	k.SetProposalOracle(cctx, &types.ProposalOracle{Oracles: []string{b.addr.String()}})
+	if r := bond(b); r != "ok" {
+		h.out.Stats.Extra["genesis_reuse"] = "bond B: " + r
+		return
+	}
+	c.oracles = []*oracleT{a, b}
+	h.out.Count("genesis-reuse:history-built")
+	h.genesisRoundTrip(c)
 }
 
 // ---- set-up ------------------------------------------------------------------------------------------------------
@@ -1671,6 +2150,10 @@ func TestC12(t *testing.T) {
 	s := hx.NewSuite(t, 1)
 	sites := loadSolSites()
 	out.Stats.Extra["solidity_sites_loaded"] = len(sites)
+	solPrefix := loadSolPrefix()
+	out.Stats.Extra["solidity_verifySig_prefixes_loaded"] = len(solPrefix)
+	solVerify := loadSolVerify()
+	out.Stats.Extra["solidity_verifySig_loaded"] = len(solVerify)
 	nSeq := hx.N(40, 300)
 	big_ := 40
 	nObj, nConf := 8, 90
@@ -1680,7 +2163,7 @@ func TestC12(t *testing.T) {
 	for q := 0; q < nSeq; q++ {
 		out.Reset()
 		cctx, _ := s.Ctx.CacheContext()
-		h := &hCtx{t: t, s: s, out: out, rng: rng, ctx: cctx, big_: big_, sites: sites}
+		h := &hCtx{t: t, s: s, out: out, rng: rng, ctx: cctx, big_: big_, sites: sites, solPrefix: solPrefix, solVerify: solVerify}
 		var chains []*chainT
 		chains = append(chains, h.setupChain("eth", s.App.EthKeeper, 1+rng.Intn(4), chains))
 		chains = append(chains, h.setupChain("bsc", s.App.BscKeeper, 1+rng.Intn(3), chains))
@@ -1752,8 +2235,18 @@ func TestC12(t *testing.T) {
 		for _, c := range chains {
 			h.verifyAll(c)
 		}
+		if q%4 == 0 {
+			for _, c := range chains {
+				h.genesisRoundTrip(c)
+			}
+		}
 	}
 	out.Reset()
 	h := &hCtx{t: t, s: s, out: out, rng: rng, ctx: s.Ctx}
+	if os.Getenv("VERIF_C12_GENESIS_REUSE") == "1" {
+		h.genesisBridgerReuse()
+		out.Reset()
+		h.ctx = s.Ctx
+	}
 	h.realTxs()
 }
